@@ -55,6 +55,17 @@ Definition holds (c : case) : bool :=
                   | R200 t _ _ => ents_eqb (filter (fun p => @nz F64 (snd p)) (vents t)) (to_ents (bi_gt_after b))
                   | _ => false
                   end)
+           (* the positive-only vector receives the undiscounted scores: a distribution (C02), whatever distrust
+              the local trust carries (discounted scores would sum to less than 1 or go negative) *)
+           && (let applicable := all_pos (match bi_pt b with Some (_, es, _) => es | None => [] end) && all_pos (bi_gt_before b)
+                                 && (0 <? bi_lt_dim b)%N in
+               negb applicable
+               || match bi_pos_after b with
+                  | Some (es', _) =>
+                      forallb (fun e : ent => PrimFloat.leb 0 (snd e)) es'
+                      && PrimFloat.leb (PrimFloat.abs (PrimFloat.sub (fold_left PrimFloat.add (map snd es') 0%float) 1%float)) 0x1p-30%float
+                  | None => true
+                  end)
          else
            (* refused: nothing is written *)
            list_eqb ent_same (bi_gt_before b) (bi_gt_after b) && N.eqb (bi_gt_ts b) (bi_gt_ts_after b)
